@@ -45,15 +45,13 @@ def run_unit(job):
                        obligations=[], gen_time=res.time, fingerprint=getattr(res, "fingerprint", None))
             axioms = res.ex.global_axioms if hasattr(res, "ex") else []
             c = reg.get(name)
-            for ob in res.obligations:
-                solve_one(ob, timeout_ms, axioms, known, out, c.replay if c else None, getattr(res, "env", None))
+            solve_all(res.obligations, timeout_ms, axioms, known, out, c.replay if c else None, getattr(res, "env", None))
         elif kind == "lemma":
             fn = [f for (n, props, f) in reg.lemmas if n == name][0]
             out = dict(kind=kind, name=name, status="ok", message="", paths=0, inlined=[], node_kinds=[],
                        vacuity={}, src={}, obligations=[], gen_time=0.0)
-            for sub, hyps, goal in fn():
-                ob = vcgen.Obligation(name, sub, hyps, goal, "lemma", True)
-                solve_one(ob, timeout_ms, [], known, out, None, None)
+            obs = [vcgen.Obligation(name, sub, hyps, goal, "lemma", True) for sub, hyps, goal in fn()]
+            solve_all(obs, timeout_ms, [], known, out, None, None)
         elif kind == "bounded":
             fn = [f for (n, props, f) in reg.bounded if n == name][0]
             out = dict(kind=kind, name=name, status="ok", message="", obligations=[], gen_time=0.0)
@@ -63,6 +61,80 @@ def run_unit(job):
     except Exception as e:
         return dict(kind=kind, name=name, status="crash", message="%s: %s\n%s" % (type(e).__name__, e, traceback.format_exc()),
                     obligations=[], wall=time.time() - t0)
+
+
+def solve_all(obs, timeout_ms, axioms, known, out, replay_key, env):
+    """Solve the obligations of one unit, each in a forked child with a hard wall-clock limit (z3's sequence solver
+    sometimes ignores both its timeout and interrupts; such a query is killed and reported `unknown`, never a
+    verdict). Up to PYVC_OBL_PAR children run at a time."""
+    import pickle
+    import select
+    par = int(os.environ.get("PYVC_OBL_PAR", "3"))
+    budget = 3.2 * timeout_ms / 1000.0 + 12
+    recs = [None] * len(obs)
+    pending = list(range(len(obs)))
+    running = {}          # read fd -> (pid, index, t_end, chunks)
+    tries = {}
+
+    def start(k):
+        r, w = os.pipe()
+        pid = os.fork()
+        if pid == 0:
+            code = 0
+            try:
+                os.close(r)
+                tmp = dict(obligations=[None] * k)
+                solve_one(obs[k], timeout_ms, axioms, known, tmp, replay_key, env)
+                with os.fdopen(w, "wb") as f:
+                    f.write(pickle.dumps(tmp["obligations"][-1]))
+            except BaseException:
+                code = 1
+            finally:
+                os._exit(code)
+        os.close(w)
+        running[r] = (pid, k, time.time() + budget, [])
+
+    def finish(r, ok):
+        pid, k, t_end, chunks = running.pop(r)
+        os.close(r)
+        try:
+            os.kill(pid, 9)
+        except OSError:
+            pass
+        os.waitpid(pid, 0)
+        rec = None
+        if ok and chunks:
+            try:
+                rec = pickle.loads(b"".join(chunks))
+            except Exception:
+                rec = None
+        if rec is None and ok and tries.get(k, 0) < 2:
+            tries[k] = tries.get(k, 0) + 1        # the child died without an answer (solver crash): ask again
+            pending.append(k)
+            return
+        if rec is None:
+            ob = obs[k]
+            rec = dict(clause=ob.clause, name=ob.name, kind=ob.kind, verdict="unknown", backend="killed",
+                       time=round(budget, 1), prop=bool(ob.prop_clause),
+                       meta={kk: (str(x) if not isinstance(x, (int, str, type(None))) else x) for kk, x in ob.meta.items()})
+            rec["meta"]["solver"] = "query killed after %.0fs (solver ignored its timeout)" % budget
+        recs[k] = rec
+
+    while pending or running:
+        while pending and len(running) < par:
+            start(pending.pop(0))
+        rd, _, _ = select.select(list(running), [], [], 0.5)
+        for r in rd:
+            b = os.read(r, 1 << 16)
+            if b:
+                running[r][3].append(b)
+            else:
+                finish(r, True)
+        now = time.time()
+        for r in list(running):
+            if now > running[r][2]:
+                finish(r, False)
+    out["obligations"].extend(recs)
 
 
 def solve_one(ob, timeout_ms, axioms, known, out, replay_key, env):
@@ -85,7 +157,7 @@ def solve_one(ob, timeout_ms, axioms, known, out, replay_key, env):
         # known-finding regions: re-solve with the region excluded
         for kf in known.get(ob.name, []):
             pass
-    if len(out["obligations"]) < 3 or v != "unsat":
+    if len([o for o in out["obligations"]]) < 3 or v != "unsat":
         try:
             s = z3.Solver()
             for h in ob.hyps:
